@@ -76,4 +76,9 @@ theorem writers_wait_for_queued_rotation : Generated.writersAwaitRotationFirst =
     readers of `Model.Conc` follow and `refcount_exact` / `no_double_close` / the reclaim theorems rest on -/
 theorem every_acquire_is_released_once : Generated.everyAcquireHasDeferredRelease = true := by decide
 
+/-- the reference count of a state is touched by `acquire` and `release` only (read from the source): every decrement goes
+    through `release`, which runs the finalizer at zero — the step `Model.Conc` takes -/
+theorem refcount_only_through_acquire_release :
+    Generated.refCountTouchedBy = ["state.acquire", "state.release"] := by decide
+
 end RaftWal.C06
